@@ -3,6 +3,7 @@ package props
 import (
 	"errors"
 	"fmt"
+	"net/http"
 	"runtime"
 
 	"github.com/tigerwill90/fox"
@@ -36,16 +37,45 @@ type TxnProg struct {
 	Managed bool
 	Ops     []WOp
 	End     string // commit abort error panic
+	PanicV  int    // panic ending: which value (injectedPanicValue)
 	EndAt   int    // error/panic/abort: after this many operations
 }
 
 func (t TxnProg) String() string {
+	if t.End == "panic" {
+		return fmt.Sprintf("txn(managed=%v ops=%v end=panic(%T)@%d)", t.Managed, t.Ops, injectedPanicValue(t.PanicV, 0), t.EndAt)
+	}
 	return fmt.Sprintf("txn(managed=%v ops=%v end=%s@%d)", t.Managed, t.Ops, t.End, t.EndAt)
 }
 
 var errInjected = errors.New("injected error from transaction function")
 
 type injectedPanic struct{ at int }
+
+// injectedPanicValue is what a transaction program panics with: the harness' own type, or one of the error values
+// the library itself panics with or treats specially elsewhere - an ending is an ending whatever the value.
+func injectedPanicValue(kind, at int) any {
+	switch kind {
+	case 1:
+		return fox.ErrSettledTxn
+	case 2:
+		return fox.ErrReadOnlyTxn
+	case 3:
+		return http.ErrAbortHandler
+	}
+	return injectedPanic{at}
+}
+
+// isInjectedPanic: is p the value this program was told to panic with?
+func isInjectedPanic(p any, t *TxnProg) bool {
+	if t.End != "panic" {
+		return false
+	}
+	if _, ok := p.(injectedPanic); ok {
+		return t.PanicV == 0 || t.PanicV > 3
+	}
+	return t.PanicV >= 1 && t.PanicV <= 3 && p == injectedPanicValue(t.PanicV, 0)
+}
 
 func genTxnProg(s sim.Source, pool []*model.Pattern, methods []string, nextTag *int, maxOps, badRate int) *TxnProg {
 	return genTxnProgHint(s, pool, methods, nextTag, maxOps, badRate, nil, world.Cfg{})
@@ -85,6 +115,7 @@ func genTxnProgHint(s sim.Source, pool []*model.Pattern, methods []string, nextT
 		t.End = "panic"
 		t.EndAt = s.Intn("endat", n+1)
 	}
+	t.PanicV = s.Intn("panicvalue", 4)
 	if !t.Managed && (t.End == "error") {
 		t.End = "abort"
 	}
@@ -103,7 +134,7 @@ func runTxn(w *world.World, pool []*model.Pattern, t *TxnProg, each func(i int, 
 				case "error":
 					return errInjected
 				case "panic":
-					panic(injectedPanic{i})
+					panic(injectedPanicValue(t.PanicV, i))
 				case "goexit":
 					runtime.Goexit() // the calling goroutine ends inside the transaction (only used on simulator tasks)
 				case "abort":
@@ -116,7 +147,7 @@ func runTxn(w *world.World, pool []*model.Pattern, t *TxnProg, each func(i int, 
 		if t.EndAt >= len(t.Ops) && t.End != "commit" {
 			switch t.End {
 			case "panic":
-				panic(injectedPanic{len(t.Ops)})
+				panic(injectedPanicValue(t.PanicV, len(t.Ops)))
 			case "goexit":
 				runtime.Goexit()
 			default:
@@ -129,7 +160,7 @@ func runTxn(w *world.World, pool []*model.Pattern, t *TxnProg, each func(i int, 
 		func() {
 			defer func() {
 				if p := recover(); p != nil {
-					if _, ok := p.(injectedPanic); !ok {
+					if !isInjectedPanic(p, t) {
 						panic(p)
 					}
 				}
@@ -144,7 +175,7 @@ func runTxn(w *world.World, pool []*model.Pattern, t *TxnProg, each func(i int, 
 		defer txn.Abort()
 		defer func() {
 			if p := recover(); p != nil {
-				if _, ok := p.(injectedPanic); !ok {
+				if !isInjectedPanic(p, t) {
 					panic(p)
 				}
 			}
